@@ -25,19 +25,21 @@ type c10Func struct {
 	params map[string]bool
 }
 
-func c10ParseEngine() (*token.FileSet, []c10Func, error) {
+func c10ParseEngine() (*token.FileSet, []c10Func, []*ast.File, error) {
 	fset := token.NewFileSet()
 	files, _ := filepath.Glob(filepath.Join(repoDir(), "engine", "*.go"))
 	sort.Strings(files)
 	var funcs []c10Func
+	var parsed []*ast.File
 	for _, fn := range files {
 		if strings.HasSuffix(fn, "_test.go") {
 			continue
 		}
 		f, err := parser.ParseFile(fset, fn, nil, 0)
 		if err != nil {
-			return nil, nil, err
+			return nil, nil, nil, err
 		}
+		parsed = append(parsed, f)
 		for _, d := range f.Decls {
 			fd, ok := d.(*ast.FuncDecl)
 			if !ok || fd.Body == nil {
@@ -57,7 +59,7 @@ func c10ParseEngine() (*token.FileSet, []c10Func, error) {
 			funcs = append(funcs, cf)
 		}
 	}
-	return fset, funcs, nil
+	return fset, funcs, parsed, nil
 }
 
 func c10Src(fset *token.FileSet, n ast.Node) string {
@@ -73,22 +75,140 @@ func c10SelName(e ast.Expr) string {
 	return ""
 }
 
-// c10LockedBefore: does a call `<x>.lock.Lock()` occur in the body before position pos?
-func c10LockedBefore(fd *ast.FuncDecl, pos token.Pos) bool {
-	locked := false
-	ast.Inspect(fd.Body, func(n ast.Node) bool {
-		if c, ok := n.(*ast.CallExpr); ok && c.Pos() < pos {
-			if s, ok := c.Fun.(*ast.SelectorExpr); ok && s.Sel.Name == "Lock" && c10SelName(s.X) == "lock" {
-				locked = true
+// c10MutexFields: names of the fields of struct RootMonitor whose type is a (pointer to a) sync
+// mutex; "" stands for an embedded one (then `rm.Lock()` is the call).
+func c10MutexFields(files []*ast.File) map[string]bool {
+	res := map[string]bool{}
+	for _, f := range files {
+		ast.Inspect(f, func(n ast.Node) bool {
+			ts, ok := n.(*ast.TypeSpec)
+			if !ok || ts.Name.Name != "RootMonitor" {
+				return true
 			}
+			st, ok := ts.Type.(*ast.StructType)
+			if !ok {
+				return true
+			}
+			for _, fl := range st.Fields.List {
+				var b bytes.Buffer
+				printer.Fprint(&b, token.NewFileSet(), fl.Type)
+				t := strings.TrimPrefix(b.String(), "*")
+				if t == "sync.Mutex" || t == "sync.RWMutex" {
+					if len(fl.Names) == 0 {
+						res[""] = true
+					}
+					for _, nm := range fl.Names {
+						res[nm.Name] = true
+					}
+				}
+			}
+			return false
+		})
+	}
+	return res
+}
+
+type c10LockEv struct {
+	pos    token.Pos
+	unlock bool
+}
+
+// c10LockEvents: Lock / non-deferred Unlock calls on a RootMonitor mutex in a function body, in source order.
+func c10LockEvents(fd *ast.FuncDecl, mutex map[string]bool) []c10LockEv {
+	deferred := map[*ast.CallExpr]bool{}
+	ast.Inspect(fd.Body, func(n ast.Node) bool {
+		if d, ok := n.(*ast.DeferStmt); ok {
+			deferred[d.Call] = true
 		}
 		return true
 	})
-	return locked
+	var evs []c10LockEv
+	ast.Inspect(fd.Body, func(n ast.Node) bool {
+		c, ok := n.(*ast.CallExpr)
+		if !ok || deferred[c] {
+			return true
+		}
+		s, ok := c.Fun.(*ast.SelectorExpr)
+		if !ok {
+			return true
+		}
+		name := s.Sel.Name
+		if name != "Lock" && name != "Unlock" && name != "RLock" && name != "RUnlock" {
+			return true
+		}
+		isMutex := false
+		if inner, ok := s.X.(*ast.SelectorExpr); ok && mutex[inner.Sel.Name] {
+			isMutex = true // x.<mutexfield>.Lock()
+		}
+		if _, ok := s.X.(*ast.Ident); ok && mutex[""] {
+			isMutex = true // embedded mutex: x.Lock()
+		}
+		if isMutex {
+			evs = append(evs, c10LockEv{c.Pos(), strings.HasSuffix(name, "nlock")})
+		}
+		return true
+	})
+	sort.Slice(evs, func(a, b int) bool { return evs[a].pos < evs[b].pos })
+	return evs
+}
+
+// c10GuardAt: is position pos inside a lock section of the function? "yes": the nearest mutex call
+// before it is a Lock; "no": it is an Unlock (positive evidence); "none": no mutex call before it.
+func c10GuardAt(evs []c10LockEv, pos token.Pos) string {
+	res := "none"
+	for _, e := range evs {
+		if e.pos < pos {
+			if e.unlock {
+				res = "no"
+			} else {
+				res = "yes"
+			}
+		}
+	}
+	return res
+}
+
+// c10Reaches: does the source of node n contain one of the texts, directly or through calls of
+// functions of the same package (depth-limited)? unknownCalls is set when a call cannot be followed.
+func c10Reaches(fset *token.FileSet, byName map[string]c10Func, n ast.Node, texts []string, depth int, unknownCalls *bool) bool {
+	src := c10Src(fset, n)
+	for _, t := range texts {
+		if strings.Contains(src, t) {
+			return true
+		}
+	}
+	found := false
+	ast.Inspect(n, func(m ast.Node) bool {
+		c, ok := m.(*ast.CallExpr)
+		if !ok || found {
+			return true
+		}
+		name := ""
+		switch f := c.Fun.(type) {
+		case *ast.Ident:
+			name = f.Name
+		case *ast.SelectorExpr:
+			name = f.Sel.Name
+		}
+		switch name {
+		case "delete", "len", "append", "At", "make", "new", "cap", "RemoveFirst", "Priority", "ID", "PostEvent", "Lock", "Unlock":
+			return true
+		}
+		if g, ok := byName[name]; ok && depth < 3 {
+			if c10Reaches(fset, byName, g.decl.Body, texts, depth+1, unknownCalls) {
+				found = true
+			}
+		} else {
+			*unknownCalls = true
+		}
+		return true
+	})
+	return found
 }
 
 func c10Facts(out string) int {
-	fset, funcs, err := c10ParseEngine()
+	fset, funcs, parsed, err := c10ParseEngine()
+	mutex := c10MutexFields(parsed)
 	if err != nil {
 		fmt.Fprintln(os.Stderr, err)
 		return 1
@@ -132,13 +252,27 @@ func c10Facts(out string) int {
 			return true
 		})
 	}
-	// 2. every use of RootMonitor.incomplete / .priorities: under rm.lock?
-	uses := map[string]token.Pos{} // function -> first use
+	// 2. every use of RootMonitor.incomplete / .priorities: inside a lock section of a RootMonitor mutex?
+	//    locked         every use follows a Lock with no Unlock in between
+	//    callers-locked no mutex call before the uses, every call site in the package is inside a lock section
+	//    unlocked       POSITIVE evidence: a use follows an Unlock, or a call site does
+	//    unknown        anything else (closures, no call sites, no mutex field recognised, ...)
+	uses := map[string][]token.Pos{}
+	inClosure := map[string]bool{}
 	for _, f := range funcs {
+		var stack []ast.Node
 		ast.Inspect(f.decl.Body, func(n ast.Node) bool {
+			if n == nil {
+				stack = stack[:len(stack)-1]
+				return true
+			}
+			stack = append(stack, n)
 			if s, ok := n.(*ast.SelectorExpr); ok && (s.Sel.Name == "incomplete" || s.Sel.Name == "priorities") {
-				if _, seen := uses[f.name]; !seen {
-					uses[f.name] = s.Pos()
+				uses[f.name] = append(uses[f.name], s.Pos())
+				for _, a := range stack {
+					if _, ok := a.(*ast.FuncLit); ok {
+						inClosure[f.name] = true
+					}
 				}
 			}
 			return true
@@ -154,32 +288,54 @@ func c10Facts(out string) int {
 		if f.recv == "" {
 			return "constructor"
 		}
-		if c10LockedBefore(f.decl, uses[name]) {
-			return "locked"
-		}
-		if depth > 3 {
+		if len(mutex) == 0 || inClosure[name] {
 			return "unknown"
 		}
-		// all call sites inside the package hold the lock before the call?
-		callers, all := 0, true
+		evs := c10LockEvents(f.decl, mutex)
+		yes, no, none := 0, 0, 0
+		for _, u := range uses[name] {
+			switch c10GuardAt(evs, u) {
+			case "yes":
+				yes++
+			case "no":
+				no++
+			default:
+				none++
+			}
+		}
+		if no > 0 {
+			return "unlocked"
+		}
+		if none == 0 {
+			return "locked"
+		}
+		if yes > 0 || depth > 3 {
+			return "unknown"
+		}
+		// no mutex call before the uses: look at the call sites
+		callers, bad, unk := 0, false, false
 		for _, g := range funcs {
+			gevs := c10LockEvents(g.decl, mutex)
 			ast.Inspect(g.decl.Body, func(n ast.Node) bool {
 				if c, ok := n.(*ast.CallExpr); ok && c10SelName(c.Fun) == name && g.name != name {
 					callers++
-					if !c10LockedBefore(g.decl, c.Pos()) {
-						all = false
+					switch c10GuardAt(gevs, c.Pos()) {
+					case "no":
+						bad = true
+					case "none":
+						unk = true
 					}
 				}
 				return true
 			})
 		}
-		if callers > 0 && all {
+		switch {
+		case bad:
+			return "unlocked"
+		case callers > 0 && !unk:
 			return "callers-locked"
 		}
-		if callers == 0 {
-			return "unknown"
-		}
-		return "unlocked"
+		return "unknown"
 	}
 	var names []string
 	for n := range uses {
@@ -190,8 +346,30 @@ func c10Facts(out string) int {
 	for _, n := range names {
 		access = append(access, fmt.Sprintf("(%q, %q)", n, classify(n, 0)))
 	}
-	// 3. heap order re-established after RemoveFirst; 4. skipped monitors excluded from the decrement
+	// 3. heap order re-established after RemoveFirst:
+	//    reestablished      a statement after the call reaches heap.Init / sort.* (also through same-package calls)
+	//    not-reestablished  POSITIVE evidence: RemoveFirst is called in descendantFinished-like code, nothing after it
+	//                       in that function reaches a re-heapify and every call after it could be followed
+	//    unknown            otherwise
+	// 4. guard of the decrement of incomplete[priority]:
+	//    skipped-excluded   the (expanded) guard negates something whose name contains "skip"
+	//    skipped-counted    POSITIVE evidence: the expanded guard mentions only the activated flag
+	//    unknown            otherwise
 	reheap, skipGuard := "unknown", "unknown"
+	goodTexts := []string{"heap.Init(", "sort.Ints(", "sort.Sort(", "sort.Slice("}
+	expand := func(cond string) string {
+		// inline the bodies of same-package predicate methods called in the condition (one level)
+		out := cond
+		for name, g := range byName {
+			if strings.Contains(cond, "."+name+"(") || strings.HasPrefix(cond, name+"(") {
+				if name == "IsActivated" {
+					continue
+				}
+				out += " {" + c10Src(fset, g.decl.Body) + "}"
+			}
+		}
+		return out
+	}
 	for _, f := range funcs {
 		var stack []ast.Node
 		ast.Inspect(f.decl.Body, func(n ast.Node) bool {
@@ -201,29 +379,32 @@ func c10Facts(out string) int {
 			}
 			stack = append(stack, n)
 			if c, ok := n.(*ast.CallExpr); ok && c10SelName(c.Fun) == "RemoveFirst" {
-				// the statement list this call is a statement of
+				found, unknownCalls := false, false
+				// every statement after the call, in all enclosing blocks up to the function body
 				for i := len(stack) - 1; i >= 0; i-- {
 					if b, ok := stack[i].(*ast.BlockStmt); ok {
-						after, found := false, false
 						for _, st := range b.List {
-							if st.Pos() <= c.Pos() && c.End() <= st.End() {
-								after = true
-								continue
-							}
-							if after {
-								src := c10Src(fset, st)
-								if strings.Contains(src, "heap.Init(") || strings.Contains(src, "sort.Ints(") || strings.Contains(src, "sort.Sort(") {
-									found = true
-								}
+							if st.Pos() > c.End() && c10Reaches(fset, byName, st, goodTexts, 0, &unknownCalls) {
+								found = true
 							}
 						}
-						if found {
-							reheap = "reestablished"
-						} else if reheap == "unknown" {
-							reheap = "not-reestablished"
-						}
-						break
 					}
+				}
+				// a helper: its callers may re-establish the order after it returns
+				helperCalled := false
+				for _, g := range funcs {
+					if g.name != f.name && strings.Contains(c10Src(fset, g.decl.Body), "."+f.name+"(") {
+						helperCalled = true
+						if c10Reaches(fset, byName, g.decl.Body, goodTexts, 0, &unknownCalls) {
+							found = true
+						}
+					}
+				}
+				switch {
+				case found:
+					reheap = "reestablished"
+				case !unknownCalls && reheap == "unknown" && (helperCalled || f.name == "descendantFinished"):
+					reheap = "not-reestablished"
 				}
 			}
 			dec := false
@@ -244,23 +425,53 @@ func c10Facts(out string) int {
 				conds := ""
 				for _, a := range stack {
 					if is, ok := a.(*ast.IfStmt); ok {
-						conds += " " + c10Src(fset, is.Cond)
+						conds += " " + expand(c10Src(fset, is.Cond))
 					}
 				}
-				// early returns / guards earlier in the function count as well
 				ast.Inspect(f.decl.Body, func(m ast.Node) bool {
 					if is, ok := m.(*ast.IfStmt); ok && is.End() < n.Pos() {
-						conds += " " + c10Src(fset, is.Cond)
+						conds += " " + expand(c10Src(fset, is.Cond))
 					}
 					return true
 				})
-				switch {
-				case strings.Contains(conds, "skipped"):
-					skipGuard = "skipped-excluded"
-				case strings.Contains(conds, "ctivated"):
-					if skipGuard == "unknown" {
-						skipGuard = "skipped-counted"
+				// a helper holding the decrement: the guards around its call sites count as well
+				for _, g := range funcs {
+					if g.name == f.name {
+						continue
 					}
+					var gs []ast.Node
+					ast.Inspect(g.decl.Body, func(m ast.Node) bool {
+						if m == nil {
+							gs = gs[:len(gs)-1]
+							return true
+						}
+						gs = append(gs, m)
+						if c, ok := m.(*ast.CallExpr); ok && c10SelName(c.Fun) == f.name {
+							for _, a := range gs {
+								if is, ok := a.(*ast.IfStmt); ok {
+									conds += " " + expand(c10Src(fset, is.Cond))
+								}
+							}
+						}
+						return true
+					})
+				}
+				low := strings.ToLower(conds)
+				onlyActivated := strings.Contains(low, "activated")
+				for _, w := range strings.FieldsFunc(conds, func(r rune) bool {
+					return !(r == '_' || r >= 'a' && r <= 'z' || r >= 'A' && r <= 'Z' || r >= '0' && r <= '9')
+				}) {
+					switch strings.ToLower(w) {
+					case "m", "mb", "monitor", "activated", "isactivated", "true", "false", "rm", "unfinished", "finished", "0", "nil":
+					default:
+						onlyActivated = false
+					}
+				}
+				switch {
+				case strings.Contains(low, "!") && strings.Contains(low, "skip"):
+					skipGuard = "skipped-excluded"
+				case onlyActivated && skipGuard == "unknown":
+					skipGuard = "skipped-counted"
 				}
 			}
 			return true
